@@ -147,6 +147,8 @@ func checkC14(c *Ctx) {
 		sortFuncs(extra)
 		units = append(units, extra...)
 	}
+	sm.an.Fork = c.c14ForkHook(sm)
+	defer func() { sm.an.Fork = nil }()
 	nProducers, nMutCalls := 0, 0
 	for _, H := range units {
 		H := H
